@@ -396,5 +396,6 @@ func main() {
 		"struct": &guarded{name: "struct", mk: func() hx.Area { return &structArea{} }},
 		"wf":     &guarded{name: "wf", mk: func() hx.Area { return &wfArea{} }},
 		"val":    &guarded{name: "val", mk: func() hx.Area { return &valArea{} }},
+		"fxval":  &guarded{name: "fxval", mk: func() hx.Area { return fxArea{} }},
 	})
 }
